@@ -28,6 +28,12 @@ TEXT = {
             "TLC model checking + plan-firing monitor on recorded traces"),
     "C09": ("planSucceeded/planFailed delivery conditions are invariants of the monitor over all explored behaviours; every recorded execution is additionally run over storage pre-filled with 0x00/0xFF/0xAA/0x01/random patterns (placement new), which is where an uninitialised planExists shows.",
             "TLC model checking + plan-outcome monitor, machines constructed over pre-filled memory"),
+    "C10": ("TaskList.tla transcribes the free list (prev/next aliasing origin/destination) and the plan's link list branch by branch; TLC checks refinement to a capacity-bounded sequence and that no slot ever leaks over the complete state graph for capacities 1..4; every transition of those graphs is replayed on the real plan (slot indices of all tasks compared, a fingerprint of the free-list state), plus seeded long sequences at capacities up to 254 and the plan-view monitor on all machine traces.",
+            "TLC model checking of TaskList.tla + edge-covering tours of its state graph replayed on the real plan + trace validation"),
+    "C13": ("BitStream.tla transcribes the per-byte chunk loops of write<W>/read<W>; TLC checks packing (no gaps, LSB first, tail zero, cursor arithmetic) and round trips for field sequences with boundary patterns, and bitWidth sufficiency for every state count 1..255 (ASSUME); the real streams are driven over every (start offset, width 1..32) pair at several capacities with raw buffer bytes and cursors compared after every operation, bitWidth() compared on powers of two +-1 and random 32-bit values.",
+            "TLC model checking of BitStream.tla + byte-exact trace validation of the real streams"),
+    "C20": ("BitArray.tla models the byte/mask implementation and TLC checks it against a set of integers (get, empty, padding bits) over the complete graphs for capacities 1,7,8,9 (12 in thorough); every transition of those graphs is replayed on the real BitArrayT, plus random sequences at other capacities; Arrays.tla does the same for the fixed and growable arrays (iteration order, fill/clear).",
+            "TLC model checking of BitArray.tla / Arrays.tla + edge-covering tours replayed on the real containers"),
     "C11": ("History rules (previousTransition equals the surviving transition, empty if none, replayTransition(invalid) changes nothing) are checked by TLC on the specification and by the history monitor on recorded traces; a second real instance with hostile guards is kept in sync purely through replayEnter/replayTransition and must show the same active state after every step.",
             "TLC model checking + history monitor + authority/replica lock-step on the real code"),
     "C12": ("Save/Load are specification actions (encode/decode of the activity state, exactly the needed lifecycle callbacks, no guards) model-checked for manual activation; every (saver state, loader state) pair is executed on the real code, the buffer bytes (with canaries around the buffer) are compared with the canonical encoding.",
